@@ -318,3 +318,9 @@ def _take(ex, L, m):
 def take(L, m):
     """the first m items of a list"""
     return list(L[:max(m, 0)])
+
+
+@prim(lambda ex, it: VInt(it.pos))
+def iter_pos(it):
+    """(ghost) number of items an iterator has consumed; only meaningful in invariants"""
+    raise RuntimeError('iter_pos is a ghost function')
